@@ -36,6 +36,10 @@ def tv(x):
 
 class Extension(Suite):
     name = "extension"
+    # the model side of this suite rests on Gen/Methods.lean and on theorems the property text does not state: a
+    # difference from the model is an INFO line and an evidence note (runner), never a verdict.  The property oracle
+    # (`oracle` below: validity / parse round trip of every message these functions emit) is a verdict as always.
+    supplementary = True
 
     def __init__(self):
         self.tables = None
@@ -497,15 +501,7 @@ class Extension(Suite):
         d = self.diff(case, o, m)
         x = case["x"]
         self.counts[x] = self.counts.get(x, 0) + 1
-        if d is None:
-            return None
-        if x in REAL:
-            return d
-        ent = self.info.setdefault(x, {"n": 0, "first": None})
-        ent["n"] += 1
-        if ent["first"] is None:
-            ent["first"] = f"{d}; case {core.canon(case)[:300]}"
-        return None
+        return None if d is None else f"{x}: {d}"
 
     # -- property oracle: every message these functions emit ---------------------------------------------------------
     def oracle(self, case, o):
